@@ -34,6 +34,15 @@ pub fn run_case(toks: &[&str], em: &mut Emitter) {
                 let r = rdp::nla::asn1::from_der(&mut back, &w);
                 Obs::new(format!("w={} r={}", hex(&w), match r { Ok(_) => back.to_string(), Err(_) => "E".into() })).nt(true)
             }
+            "per_asn1_enum" => {
+                // `per_asn1_enum <+|-> <magnitude>`: an ENUMERATED of the library's i64 type through to_der / from_der
+                let m: i128 = t[2].parse().unwrap();
+                let v = (if t[1] == "-" { -m } else { m }) as rdp::nla::asn1::Enumerate;
+                let w = rdp::nla::asn1::to_der(&v);
+                let mut back = 99 as rdp::nla::asn1::Enumerate;
+                let r = rdp::nla::asn1::from_der(&mut back, &w);
+                Obs::new(format!("w={} r={}", hex(&w), match r { Ok(_) => back.to_string(), Err(_) => "E".into() })).nt(true)
+            }
             "per_asn1_oct" => {
                 let b = unhex(&t[1]);
                 let w = rdp::nla::asn1::to_der(&(b.clone() as rdp::nla::asn1::OctetString));
@@ -153,6 +162,12 @@ pub fn generate_roundtrips(thorough: bool, r: &mut Rng, part: (usize, usize), em
     if part.0 == 0 {
         for &n in &[0u64, 1, 0x7f, 0x80, 0xff, 0x100, 0x7fff, 0x8000, 0xffff, 0x10000, 0x7fffff, 0x800000, 0xffffff, 0x1000000, 0x7fffffff, 0x80000000, 0x80000001, 0xfffffffe, 0xffffffff] { emit(em, format!("per_asn1_int {}", n)); }
         for _ in 0..(if thorough { 2000 } else { 200 }) { let n = r.next() as u32 >> r.below(32); emit(em, format!("per_asn1_int {}", n)); }
+        // ENUMERATED over the whole i64 domain: zero, boundaries of every content width, negative values
+        for &m in &[0u64, 1, 0x7f, 0x80, 0x81, 0xff, 0x100, 0x7fff, 0x8000, 0x8001, 0x7fffff, 0x800000, 0x7fffffff, 0x80000000, 0x7fffffffffff, 0x800000000000, 0x7fffffffffffffff] {
+            emit(em, format!("per_asn1_enum + {}", m)); emit(em, format!("per_asn1_enum - {}", m));
+        }
+        emit(em, "per_asn1_enum - 9223372036854775808".to_string());
+        for _ in 0..(if thorough { 2000 } else { 100 }) { let m = r.next() >> r.below(64); let m = m & 0x7fffffffffffffff; emit(em, format!("per_asn1_enum {} {}", if r.chance(1, 2) { "-" } else { "+" }, m)); }
         for &l in &[0usize, 1, 2, 126, 127, 128, 129, 255, 256, 257, 1000, 65535, 65536] { let b = r.bytes(l); emit(em, format!("per_asn1_oct {}", hex(&b))); }
         // BER length forms (shortest, one octet longer, two-octet long form) read by `from_ber`; the MCS
         // connect response in each form; the GCC version constants
